@@ -19,7 +19,14 @@ func (ir *IntrospectionResolver) ResolveIntrospectionFields(selectionSet ast.Sel
 	for _, f := range common.SelectionSetToFields(selectionSet, nil) {
 		switch f.Name {
 		case "__type":
-			name := f.Arguments.ForName("name").Value.Raw
+			nameValue := f.Arguments.ForName("name").Value
+			name := nameValue.Raw
+			// name can be passed via variable
+			if v, err := nameValue.Value(ir.Variables); err == nil {
+				if s, ok := v.(string); ok {
+					name = s
+				}
+			}
 			introspectionResult[f.Alias] = ir.resolveType(schema, &ast.Type{NamedType: name}, f.SelectionSet)
 			isIntrospection = true
 		case "__schema":
